@@ -5,14 +5,18 @@
    and an iteration counter.  [safe r] is  r <> Panic /\ r <> Hang. *)
 From Coq Require Import NArith List.
 From Verif Require Import Model.CodecBase Model.CodecPPPoE Model.CodecLcp Model.CodecAuth Model.CodecDhcp6
-  Model.CodecMisc Model.CodecSpec Model.CodecCheck
-  Proofs.CodecBaseProofs Proofs.CodecPPPoEProofs Proofs.CodecMiscProofs Proofs.CodecRoundTripProofs.
+  Model.CodecMisc Model.CodecGlue Model.CodecSpec Model.CodecCheck
+  Proofs.CodecBaseProofs Proofs.CodecPPPoEProofs Proofs.CodecMiscProofs Proofs.CodecTableProofs Proofs.CodecRoundTripProofs.
 Import ListNotations.
 Local Open Scope N_scope.
 
 (* (1) Full statement, all entry points at once: for every entry-point number except the session-id
-   allocator (9: one call, 14: a sequence of calls; theorems (5) below), every parameter vector (protocol state, identifiers), every byte string and every
-   content of the spare buffer capacity, the Model neither panics nor runs out of fuel. *)
+   allocator (9: one call, 14: a sequence of calls; their case parameters encode a table by its
+   complement, so their theorems are stated on tables directly: (5) and (5b) below), every parameter
+   vector (protocol state, identifiers, lease state), every byte string and every content of the
+   spare buffer capacity, the Model neither panics nor runs out of fuel.  This includes entry 15
+   (the PPPoE receive-loop body on a raw Ethernet frame) and entry 28 (the DHCPv6 handlers with
+   lease state and nil-pointer semantics). *)
 Theorem C09_no_panic_no_hang_any_entry : forall e p d tail, e <> 9 -> e <> 14 -> safe (call e p d tail).
 Proof. exact call_safe. Qed.
 Print Assumptions C09_no_panic_no_hang_any_entry.
@@ -59,6 +63,54 @@ Print Assumptions C09_no_panic_dhcpv6_handle.
 Theorem C09_no_panic_sse : forall s, safe (sse_count s).
 Proof. exact sse_count_safe. Qed.
 Print Assumptions C09_no_panic_sse.
+
+(* (2b) handler glue.  Pointers that may be nil are options and every dereference is [deref], which
+   is Panic on None; a map lookup that misses yields the nil pointer.  DHCPv6: every handler, every
+   lease state (lookup hit or miss, lease with / without address and prefix), every server DUID. *)
+Theorem C09_no_panic_dhcpv6_handle_any_lease_state : forall hit la lp nl server_duid prepared d,
+  safe (d6_handle_st hit la lp nl server_duid prepared d).
+Proof. exact d6_handle_st_safe. Qed.
+Print Assumptions C09_no_panic_dhcpv6_handle_any_lease_state.
+
+(* buildAdvertise / buildReply never return the nil message once the Client Identifier was found
+   (handleSolicit appends to response.Options before its nil check) *)
+Theorem C09_dhcpv6_response_not_nil : forall os c r, find_opt os 1 = Some c -> build_msg os = Ok r -> r = Some tt.
+Proof. exact build_msg_some. Qed.
+Print Assumptions C09_dhcpv6_response_not_nil.
+
+(* the PPPoE receive-loop body on any frame of any length, any stale bytes behind it in the buffer *)
+Theorem C09_no_panic_recv_frame : forall sid authed frame tail, safe (recv_frame sid authed frame tail).
+Proof. exact recv_frame_safe. Qed.
+Print Assumptions C09_no_panic_recv_frame.
+
+Theorem C09_recv_frame_reads_only_input : forall sid authed frame tail,
+  recv_frame sid authed frame tail = recv_frame sid authed frame [].
+Proof. exact recv_frame_no_overread. Qed.
+Print Assumptions C09_recv_frame_reads_only_input.
+
+(* non-vacuity: the Model can express the nil dereference and the guards matter.  A Request whose
+   Server Identifier has 0 or 1 bytes makes ParseDUID return nil; the guard returns; an unguarded
+   dereference of that pointer is a Panic. *)
+Example C09_nil_guard_matters :
+  as_ptr (d6_duid []) = Ok None /\ as_ptr (d6_duid [7]) = Ok None /\
+  deref (@None rows) = Panic /\
+  d6_handle_st false false false 0 [0; 3; 0; 1; 2] [] [3; 1; 2; 3; 0; 1; 0; 1; 9; 0; 2; 0; 0] = Ok [[0; 0; 0]] /\
+  d6_handle_st false false false 0 [0; 3; 0; 1; 2] [] [3; 1; 2; 3; 0; 1; 0; 1; 9; 0; 2; 0; 5; 0; 3; 0; 1; 2] = Ok [[0; 1; 1]] /\
+  (* Renew from a client with a lease (hit) and without (miss); Release removes the lease *)
+  d6_handle_st true true false 4 [0; 3] [9] [5; 1; 2; 3; 0; 1; 0; 1; 9] = Ok [[0; 1; 4]] /\
+  d6_handle_st true true false 4 [0; 3] [8] [5; 1; 2; 3; 0; 1; 0; 1; 9] = Ok [[0; 0; 4]] /\
+  d6_handle_st true true false 4 [0; 3] [9] [8; 1; 2; 3; 0; 1; 0; 1; 9] = Ok [[0; 1; 3]].
+Proof. vm_compute. repeat split; reflexivity. Qed.
+
+(* a runt frame, a frame for another station, a PADI to the broadcast address *)
+Example C09_recv_frame_paths :
+  recv_frame 0 0 [255; 255; 255; 255; 255; 255; 2; 170; 187; 204; 221; 1; 136] [9; 9] = Ok [[0]] /\
+  recv_frame 0 0 [2; 0; 0; 0; 0; 7; 2; 170; 187; 204; 221; 1; 136; 99; 17; 9; 0; 0; 0; 0] [] = Ok [[0]] /\
+  recv_frame 0 0 [255; 255; 255; 255; 255; 255; 2; 170; 187; 204; 221; 1; 136; 99; 17; 9; 0; 0; 0; 0] [] = Ok [[7; 0; 3]; [0]] /\
+  (* a PADT for the live session 1 from its owner ends it; from another station it does not *)
+  recv_frame 1 0 [2; 0; 0; 0; 0; 1; 2; 170; 187; 204; 221; 1; 136; 99; 17; 167; 0; 1; 0; 0] [] = Ok [[0]] /\
+  recv_frame 1 0 [2; 0; 0; 0; 0; 1; 2; 170; 187; 204; 221; 9; 136; 99; 17; 167; 0; 1; 0; 0] [] = Ok [[1]].
+Proof. vm_compute. repeat split; reflexivity. Qed.
 
 (* (3) never indexes outside its input: where the code re-slices a receive buffer, the result does
    not depend on the bytes lying in the spare capacity *)
@@ -125,6 +177,46 @@ Theorem C09_model_create_accepted : forall p,
   accept tt (Call 9 p [] []) (run_op (Call 9 p [] [])) = inl tt.
 Proof. exact model_create_accepted. Qed.
 Print Assumptions C09_model_create_accepted.
+
+(* (5b) the same for EVERY state of the session table, without the pigeonhole hypothesis.  The table
+   is a Go map keyed by uint16: a key list without duplicates ([NoDup] is the representation
+   invariant of a map, not an assumption on its contents); len(m.sessions) is its length.
+   [tbl_inv used count] : some duplicate-free key list has membership [used] and length [count]. *)
+Theorem C09_table_pigeonhole : forall used count, tbl_inv used count -> table_wf used count.
+Proof. exact tbl_inv_wf. Qed.
+Print Assumptions C09_table_pigeonhole.
+
+Theorem C09_create_session_any_table : forall keys next,
+  NoDup keys -> next <= 65535 -> safe (create_tbl keys next).
+Proof. exact create_tbl_safe. Qed.
+Print Assumptions C09_create_session_any_table.
+
+Theorem C09_create_session_capacity_any_table : forall keys next,
+  NoDup keys -> next <= 65535 -> lenN keys < 65535 ->
+  exists id nx, create_tbl keys next = Ok (id, nx) /\ ~ In id keys /\ 1 <= nx <= 65535.
+Proof. exact create_tbl_issues. Qed.
+Print Assumptions C09_create_session_capacity_any_table.
+
+(* a PADR flood of any length starting from any table: every call returns (entry 14 of the tie) *)
+Theorem C09_create_sequence_any_table : forall n used count next,
+  tbl_inv used count -> next <= 65535 -> safe (create_seq n used count next).
+Proof. exact create_seq_safe. Qed.
+Print Assumptions C09_create_sequence_any_table.
+
+Theorem C09_padr_flood_any_table : forall n keys next,
+  NoDup keys -> next <= 65535 -> safe (padr_flood n keys next).
+Proof. exact padr_flood_safe. Qed.
+Print Assumptions C09_padr_flood_any_table.
+
+Example C09_table_hypotheses_satisfiable :
+  NoDup [1; 2; 4] /\ tbl_inv (mem [1; 2; 4]) 3 /\
+  padr_flood 3 [1; 2; 4] 1 = Ok [[101; 3]; [101; 5]; [101; 6]] /\
+  create_tbl [1; 2; 4] 65535 = Ok (65535, 1).
+Proof.
+  assert (H : NoDup [1; 2; 4]).
+  { repeat constructor; cbn; intuition discriminate. }
+  split; [exact H|]. split; [exact (tbl_inv_mem _ H)|]. vm_compute. split; reflexivity.
+Qed.
 
 (* (6) round trips of the 16-bit TLV codec: parsing what the serializer wrote returns the values.
    [tlv_ok eol t]: type and value length fit 16 bits; for PPPoE tags the type is not End-Of-List (0). *)
